@@ -37,7 +37,12 @@ MsgEq(a, b) ==
              /\ IF a.ups[i].k = "Enable" THEN a.ups[i].rq = b.ups[i].rq /\ a.ups[i].v = b.ups[i].v
                 ELSE a.ups[i].t = b.ups[i].t /\ (a.ups[i].k \in {"Running", "RunningPrefilled", "Reject"} => a.ups[i].v = b.ups[i].v)
        [] OTHER -> TRUE
-SeqMsgEq(s, t) == Len(s) = Len(t) /\ \A i \in DOMAIN s : MsgEq(s[i], t[i])
+\* a ComputeTasks batch that is too large for one frame is split by the server (ComputeTasksBuilder); the model sends it as one message
+MergeCompute(s) ==
+  FoldLeft(LAMBDA acc, m : IF acc # <<>> /\ m.k = "Compute" /\ Last(acc).k = "Compute"
+                           THEN [acc EXCEPT ![Len(acc)] = [k |-> "Compute", tasks |-> acc[Len(acc)].tasks \o m.tasks]]
+                           ELSE Append(acc, m), <<>>, s)
+SeqMsgEq(s0, t0) == LET s == MergeCompute(s0)  t == MergeCompute(t0) IN Len(s) = Len(t) /\ \A i \in DOMAIN s : MsgEq(s[i], t[i])
 
 \* messages of channel ch sent to/by worker w in this step, as logged
 SentTo(e, ch, w) ==
